@@ -2322,12 +2322,14 @@ func (mgr *Manager) newPcapOverIPEndpoint(ctx context.Context, address string) *
 				ctx, innerCancel := context.WithCancel(ctx)
 				go func() {
 					<-ctx.Done()
+					// shutting down the connection makes a blocked read of the pcap handle return
 					_ = conn.CloseRead()
 					_ = conn.CloseWrite()
 					conn.Close()
-					file.Close()
 				}()
 				defer innerCancel()
+				// the file is used by this goroutine only, close it here
+				defer file.Close()
 				handle, err := pcap.OpenOfflineFile(file)
 				if err != nil {
 					log.Printf("Can't open file descriptor of PCAP-over-IP endpoint %q: %v\n", endpoint.Address, err)
